@@ -44,6 +44,20 @@ void harness(void) {
   __CPROVER_assert(r == NULL, "COVER constructed");
   __CPROVER_assert(r != NULL, "COVER allocation refused");
 }
+#elif defined(H_BUILD_STR)
+/* cbor_build_bytestring / cbor_build_stringn: any length, source in an exactly-sized buffer, watched byte g_k */
+void harness(void) {
+  SETUP();
+  size_t in_len = nondet_size();
+  __CPROVER_assume(in_len <= VERIF_MAXOBJ);
+  unsigned char *src = mk_block(in_len);
+  g_s.valid = true;
+  if (g_k < in_len) g_s.byte = src[g_k];
+  cbor_item_t *r = CALL;
+  __CPROVER_assert(r == NULL, "COVER constructed");
+  __CPROVER_assert(r != NULL, "COVER allocation refused");
+  __CPROVER_assert(!(r != NULL && g_k < in_len && in_len > 70000), "COVER long string built, watched byte inside");
+}
 #elif defined(H_STRING_SET_HANDLE)
 void harness(void) {
   SETUP();
